@@ -421,10 +421,8 @@ fn part_a(ctx: &Ctx) -> Outcome {
 // PART B — end to end (real Session + mock cluster): idempotence gate, distinct plan
 // targets, overlap of frames. To be filled in by the coordinator; keep `part_a` as is.
 // ---------------------------------------------------------------------------------
-fn part_b(_ctx: &Ctx) -> Outcome {
-    let mut o = Outcome::new();
-    o.inconclusive("C13 part b (end to end) is not built yet");
-    o
+fn part_b(ctx: &Ctx) -> Outcome {
+    crate::checks::retry_e2e::run_c13_b(ctx)
 }
 
 /// Part named by `--part`, or, when replaying, by the replay file itself.
